@@ -379,6 +379,9 @@ def obligations(tier):
     obls += borrow("C19", ["popup_auth", "retr_top", "session_step"] + ([] if quick else ["popup_commands"]), tier)
     obls += borrow("C13", ["envelope_lines", "bouncexf"] + ([] if quick else ["dotqmail_loop"]), tier)
     obls += borrow("C07", ["received_safe"], tier)
+    # the routing tables keep pointers into the buffers they were built over: after a reread that fails half-way they must not
+    # point into overwritten or re-allocated memory (use after free on the next rewrite())
+    obls += borrow("C10", ["regetcontrols"], tier)
     obls += borrow("C17", ["addrlist_forms"], tier)
     obls += borrow("C18", ["spawn_docmd", "spawn_main"] + ([] if quick else ["spawn_getcmd"]), tier)
     if not quick:
@@ -391,7 +394,26 @@ def obligations(tier):
 def more_kernels(tier):
     quick = (tier == "quick")
     obls = []
-    # kills: (tools/mutant.sh, each VIOLATION with native replay rc 1)
+    # kills: (hand-made mutants of /repo in scratch worktrees, tools/mutant.sh; every one printed VIOLATION with a native replay rc 1)
+    #   remoteinfo.c  `x == line + sizeof(line) - 1` -> `... sizeof(line)`         remoteinfo_parse (LSZ 8 copy: *x = 0 one past the buffer)
+    #   remoteinfo.c  drop the buffer-full break                                      remoteinfo_parse (LSZ 8 copy)
+    #   remoteinfo.c  drop `*x = 0`                                                    remoteinfo_parse (all points: "NUL-terminated inside its buffer")
+    #   remoteinfo.c  `numcolons < 3` -> `<= 3`                                        remoteinfo_parse (result is not the user-id field)
+    #   tcpto.c       getbuf `r >>= 4` -> `r = (r + 15) >> 4`                         tcpto_records ("inside the part of tcpto_buf that was read")
+    #   tcpto.c       tcpto_err `if (i >= n)` -> `if (i > n)`                          tcpto_records (byte_copy one record past the buffer)
+    #   tcpto.c       read(..., sizeof(tcpto_buf) + 16)                                tcpto_records
+    #   tcpto.c       close(fdlock) moved before seek/write                            tcpto_records ("while it is open")
+    #   tcpto.c       tcpto() record loop `i < n` -> `i <= n`                          tcpto_records (memcmp past the buffer)
+    #   tcpto.c       last seek_set(fdlock,i << 4) -> `i << 3`                         tcpto_records ("goes back to the file offset it was read from")
+    #   ip.c          ip_fmt forgets one `len += i`; formats d[2] twice; ip_scan forgets the last `len += i`;
+    #                 ip_scanbracket returns len + 1; looks for ']' at s[len + 2]        ip_scan_fmt (five mutants)
+    #   dns.c         dns_mxip `mx[i] = mx[--nummx]` -> `mx[nummx--]`; selection loop `j < nummx` -> `j <= nummx`;
+    #                 alloc_free(mx[i].sa.s) moved before dns_ipplus (use after free); mx[] allocated with sizeof(struct ip_mx)
+    #                                                                                  ipalloc_dns_sort (four mutants, NA 2)
+    #   qmail-pw2u.c  drop stralloc_0(&home); drop stralloc_0(&user); drop the NUL-in-line test   pw2u_line (template CM726_N10)
+    #   qmail-pw2u.c  `xlen -= i` -> `xlen -= i - 1` behind the gid field              pw2u_line (N 6: byte_chr one past the line; NOT seen by the template point)
+    # not killed: dns.c clean-up loop `while (nummx >= 0) alloc_free(mx[nummx--].sa.s)` - harmless (the extra element holds sa.s == 0,
+    # free(NULL)); off-by-one mutants of remoteinfo.c only inside the LSZ 8 parametric copy (999 bytes are outside every reply bound)
     obls.append(Obl(
         "remoteinfo_parse", "rinfo.c",
         progs=[Prog("remoteinfo.c", sub=[(r"^static char line\[999\];", "static char line[LSZ];", 1)])],
@@ -427,7 +449,8 @@ def more_kernels(tier):
         assumes=["TBUF 64: parametric copy of tcpto.c whose only edit is the size of tcpto_buf (1024 -> 64, 4 records)",
                  "counter byte [4] of every record in 0..126: on a negative char `record[4] << 10` is an undefined shift without memory "
                  "effect, and cbmc (not C) calls `++record[4]` at 127 an overflow; the documents do not mention the format"],
-        outside=["tcpto_clean() (writes 1024 constant bytes through substdio: l0_substdio_out)"],
+        outside=["the shipped size 1024 = 64 records (12 GB / no verdict; 64, 128, 256 bytes: 5 s, 14 s, 70 s - the loops are the same, the size "
+                 "enters only through sizeof(tcpto_buf))", "tcpto_clean() (writes 1024 constant bytes through substdio: l0_substdio_out)"],
         claim="tcpto()/tcpto_err() on arbitrary contents and any length of queue/lock/tcpto: all accesses inside tcpto_buf, read() gets "
               "exactly the buffer, the one record written lies inside the bytes read, at the offset it came from, under the lock",
         expect_witnesses=["address_recently_timed_out", "address_known_not_recent", "new_record_stored_in_full_size_file", "timeout_recorded",
@@ -448,8 +471,8 @@ def more_kernels(tier):
               "stralloc_pend.c", "byte_copy.c"],
         sysrename=["dn_expand", "realloc"],
         grid=[{"NA": n, "AMAX": 2, "DL": 3} for n in (1, 2)] + [{"NA": 1, "AMAX": 1, "DL": 7}]
-             + ([] if quick else [{"NA": 0, "AMAX": 2, "DL": 3}, {"NA": 3, "AMAX": 2, "DL": 3}, {"NA": 1, "AMAX": 12, "DL": 3}]),
-        unwind=lambda p: {"dns_mxip": p["NA"] + 2, "dns_ipplus": p["AMAX"] + 2, "vmain": p["AMAX"] * (p["NA"] + 2) + 2, "scan_ulong": 9, "strlen": 6, "byte_copy": 4},
+             + ([] if quick else [{"NA": 0, "AMAX": 2, "DL": 3}, {"NA": 3, "AMAX": 2, "DL": 3}]),
+        unwind=lambda p: {"dns_mxip": p["NA"] + 2, "dns_ipplus": p["AMAX"] + 2, "vmain": max(p["AMAX"] * (p["NA"] + 2) + 3, p["DL"] + 2), "scan_ulong": 9, "strlen": 6, "byte_copy": 4},
         unwind_default=24, timeout=900,
         functions=["dns.c:dns_mxip", "dns.c:dns_ipplus", "dns.c:dns_ip", "ipalloc.c:ipalloc_append", "ipalloc.c:ipalloc_readyplus"],
         cuts=["resolve, findmx, findip -> contracts (2 iff numanswers <= 0, else one answer consumed); their reads of the response: dns_walkers"],
@@ -457,7 +480,9 @@ def more_kernels(tier):
                "elements, may refuse once", "stralloc_ready*: one block per stralloc, a fresh allocation may be refused"],
         assumes=["MX query: NA answers (grid), each skipped / MX with any preference and any name of 0..3 bytes / soft error; each A query: any "
                  "0..AMAX answers; any resolve() outcome; domain: DL arbitrary bytes"],
-        outside=["more than 3 MX records, more than 12 addresses; the leak of collected names on the DNS_SOFT exit is not a C20 clause"],
+        outside=["more than 2 (quick) / 3 (thorough) MX records, more than 2 addresses per exchanger: the second growth of the ipalloc (12th "
+                 "address) is not reached - NA 3 x AMAX 4: no verdict in 900 s; its arithmetic is alloc_arith_ipalloc_readyplus",
+                 "the leak of collected names on the DNS_SOFT exit is not a C20 clause"],
         claim="dns_mxip: indexes stay inside mx[] (exactly numanswers elements) and the ipalloc through collection, selection, "
               "mx[i] = mx[--nummx] and the clean-up loops; no name is used after free or freed twice; len <= a; result sorted by preference",
         expect_witnesses=mx_wit))
@@ -469,24 +494,37 @@ def more_kernels(tier):
         claim="ip_fmt(0,ip) == bytes written, 7..15 <= IPFMT, into an exactly-sized block; ip_scan and ip_scanbracket read the text back "
               "to the same address and consume exactly its length",
         expect_witnesses=["round_trip", "shortest", "longest_255_255_255_255_style"]))
+    # pw2u: templates (CM = bit mask of the colon positions up to the sixth colon) reach the printing branch, which no
+    # untemplated query reaches in the quick budget: u::i:g::h: (N 10), the same plus a shell byte (N 11), ab::i:g::h: (N 11)
+    def pw_wit(p):
+        if "CM" in p:
+            ulen = (p["CM"] & -p["CM"]).bit_length() - 1
+            return ["malformed_line_skipped", "account_skipped", "non_numeric_uid_or_gid", "stat_error_is_fatal", "account_printed"] \
+                + (["alias_user"] if ulen == 1 else [])
+        n = p["N"]
+        return ["malformed_line_skipped"] + (["non_numeric_uid_or_gid"] if n >= 6 else []) + (["stat_error_is_fatal"] if n >= 7 else []) \
+            + (["account_skipped", "empty_user_name_prints_nothing"] if n >= 8 else []) + (["account_printed", "alias_user"] if n >= 10 else [])
     obls.append(Obl(
         "pw2u_line", "pw2u.c", progs=[Prog("qmail-pw2u.c", nomain=True)],
         repo=["byte_chr.c", "scan_ulong.c", "str_chr.c", "stralloc_opyb.c", "stralloc_opys.c", "stralloc_cats.c", "stralloc_catb.c",
               "stralloc_pend.c", "byte_copy.c"],
-        lib=["ideal_substdio.c"], sysrename=["stat", "_exit"],
-        grid=[{"N": n} for n in ((5, 9, 10) if quick else (0, 3, 6, 8, 9, 10, 11, 12))],
+        lib=["ideal_substdio.c", "harness/C20/pw2u_conf.c"], sysrename=["stat", "_exit"],
+        grid=[{"N": n} for n in ((5, 6) if quick else (0, 3, 5, 6, 7, 8, 9, 10))] + [{"N": 10, "CM": 0b1011010110}]
+             + ([] if quick else [{"N": 11, "CM": 0b1011010110}, {"N": 11, "CM": 0b10110101100}]),
         unwind=lambda p: {"byte_chr": p["N"] + 2, "byte_copy": p["N"] + 2, "scan_ulong": p["N"] + 1, "str_chr": p["N"] + 2,
-                          "strlen": p["N"] + 2, "substdio_put": p["N"] + 2, "doaccount": p["N"] + 2, "vf_stat": p["N"] + 3},
-        unwind_default=lambda p: 2 * p["N"] + 3, timeout=900,
+                          "strlen": 36, "substdio_put": 36, "doaccount": p["N"] + 2, "vf_stat": p["N"] + 3},   # die_home's message: 34 bytes
+        unwind_default=lambda p: 2 * p["N"] + 3, timeout=1200,
         functions=["qmail-pw2u.c:doaccount"],
-        stubs=["substdio: ideal streams", "stat: any outcome (exists with any owner / ENOENT / other error)",
+        stubs=["substdio: ideal streams, output observed by scalar counters (length, lines, NUL, line starts)",
+               "stat: any outcome (exists with any owner / ENOENT / other error)",
                "stralloc_ready*: the seven strallocs are pre-sized (N+2, allusers 2N+2), filled with stale non-NUL bytes; extents asked for are recorded"],
-        assumes=["line of exactly N arbitrary bytes (grid); users/include, exclude, mailnames absent; default flags; alias user 'a', break '-'"],
-        outside=["longer lines; mailnames/include/exclude tables (constmap: control_constmap); dosubuser(); uid fields of 10+ digits"],
+        assumes=["line of exactly N arbitrary bytes (grid), LF only as last byte (getln); with CM: colons exactly at the positions of the mask up "
+                 "to the sixth colon, everything else arbitrary", "users/include, exclude, mailnames absent; default flags; alias user 'a', break '-'"],
+        outside=["longer lines; lines of 11 bytes outside the two templates; mailnames/include/exclude tables (constmap: control_constmap); "
+                 "dosubuser(); byte-by-byte comparison of the printed lines (length and line count are compared; a byte-sum comparison made "
+                 "N=9 undecided in 900 s)"],
         claim="doaccount on any passwd line of N bytes: no out-of-bounds access (every printed or stat()ed field is NUL-terminated inside "
               "its block), output has no NUL and only complete lines, malformed/ineligible lines print nothing, an accepted numeric account "
-              "prints exactly the qmail-users(5) assignments",
-        expect_witnesses=lambda p: ["malformed_line_skipped"] + (["account_skipped", "non_numeric_uid_or_gid", "empty_user_name_prints_nothing",
-                                                                   "stat_error_is_fatal"] if p["N"] >= 8 else [])
-        + (["account_printed", "alias_user"] if p["N"] >= 10 else [])))
+              "prints two (alias user: three) lines of the total length of the qmail-users(5) assignments",
+        expect_witnesses=pw_wit))
     return obls
